@@ -43,7 +43,7 @@ Value& GETENVExpression::value(Context & ctx) const
     break;
   case Type::LITERAL:
     if (val.isNull())
-      return val;
+      return handback(ctx, val);
     else
     {
       const char * buf = ::getenv(val.literal()->c_str());
@@ -57,7 +57,7 @@ Value& GETENVExpression::value(Context & ctx) const
   if (val.lvalue())
     return ctx.allocate(std::move(v));
   val.swap(Value(std::move(v)));
-  return val;
+  return handback(ctx, val);
 }
 
 GETENVExpression * GETENVExpression::parse(Parser& p, Context& ctx)
